@@ -232,8 +232,21 @@ def build_components(case, trace):
                     ns[name + '_async'] = other
             else:
                 raise HarnessError('bad variant %r' % (variant,))
-        out.append(type('Component%d' % i, (object,), ns)())
+        comp = type('Component%d' % i, (object,), ns)()
+        if i in (case.get('proxied') or []):
+            comp = _Proxy(comp)  # a wrapper that forwards every attribute through __getattr__
+        out.append(comp)
     return out
+
+
+class _Proxy(object):
+    """Delegating wrapper (tracing / lazy proxy): has no process_* attributes of its own."""
+
+    def __init__(self, inner):
+        object.__setattr__(self, '_inner', inner)
+
+    def __getattr__(self, name):
+        return getattr(object.__getattribute__(self, '_inner'), name)
 
 
 def _hook(kind, site, trace, action, asyn):
@@ -277,6 +290,9 @@ def build_resource(case, trace):
         site = 'mhook%d' % k
         on_get = deco[hooks[k]](_hook(hooks[k], site, trace, actions.get(site, 'return'), asyn))(on_get)
     cls = type('Resource', (object,), {'on_get': on_get})
+    if case.get('inherit'):
+        # the responder is inherited: class-level hooks are applied to a subclass that defines nothing itself
+        cls = type('ChildResource', (cls,), {})
     hooks = case['class_hooks']
     for k in reversed(range(len(hooks))):
         site = 'chook%d' % k
@@ -476,6 +492,8 @@ def _stack_case(draw):
         'app_handler': draw(st.sampled_from(HANDLER_ACTIONS)),
         'actions': actions,
         'batches': draw(st.one_of(st.just([]), st.just([]), st.lists(st.integers(0, 4), min_size=1, max_size=3))),
+        'proxied': draw(st.one_of(st.just([]), st.just([]), st.lists(st.integers(0, 3), max_size=2, unique=True))),
+        'inherit': draw(st.sampled_from([False, False, True])),
     }
 
 
